@@ -46,6 +46,13 @@ class Injector(object):
     def __call__(self, phase, ekind, text, params, conn, idx):
         if phase != 'before' or self.fired or idx != self.k:
             return
+        if not applicable(self.kind, ekind, text):
+            # (pairs: the second index is planned blind, the stream after the
+            # first fault differs from the fault-free one) move on to the
+            # next event - never fire at a ROLLBACK, see applicable()
+            self.k += 1
+            self.deferred = getattr(self, 'deferred', 0) + 1
+            return
         self.fired = True
         self.fired_on = (ekind, text)
         from oslo_db import exception as db_exc
@@ -174,6 +181,19 @@ def corpus(d):
             K3: {'allocations': {S: {'resources': {'DISK_GB': 7}}},
                  'project_id': 'proj-new', 'user_id': 'user-new',
                  'consumer_generation': None, 'consumer_type': 'INSTANCE'}})
+    out['POST /allocations write one, name a new consumer with nothing'] = \
+        Req('POST', '/allocations', v, {
+            K2: {'allocations': {E: {'resources': {'VCPU': 1}}},
+                 'project_id': 'proj-other', 'user_id': 'user-other',
+                 'consumer_generation': cg[K2], 'consumer_type': 'MIGRATION'},
+            K3: {'allocations': {}, 'project_id': 'proj-new',
+                 'user_id': 'user-new', 'consumer_generation': None,
+                 'consumer_type': 'INSTANCE'}})
+    out['PUT /allocations new consumer with nothing'] = Req(
+        'PUT', '/allocations/%s' % K3, v, {
+            'allocations': {}, 'project_id': 'proj-new',
+            'user_id': 'user-new', 'consumer_generation': None,
+            'consumer_type': 'INSTANCE'})
     out['PUT aggregates new + known'] = Req(
         'PUT', '/resource_providers/%s/aggregates' % R, v, {
             'resource_provider_generation': g[R],
